@@ -77,6 +77,9 @@ func (u *Unsubscribe) Unpack(r io.Reader) error {
 	if err != nil {
 		return err
 	}
+	if u.PacketID == 0 { // v311 [MQTT-2.3.1-1], v5 [MQTT-2.2.1-3]
+		return codes.ErrProtocol
+	}
 
 	if u.Version == Version5 {
 		u.Properties = &Properties{}
